@@ -3,7 +3,11 @@ import re
 
 # Number encapsulates bool, int, float, complex, decimal.Decimal, etc.
 try:
-    from dataclasses import is_dataclass, fields
+    from dataclasses import is_dataclass as _is_dataclass, fields
+
+    def is_dataclass(value):
+        # A proxied result of student code shows its class only through __class__
+        return _is_dataclass(value) or _is_dataclass(getattr(value, '__class__', None))
 except ImportError:
     is_dataclass = lambda value: False
 
@@ -179,7 +183,7 @@ def equality_test(actual, expected, _exact_strings, _delta):
                     all(e.name == a.name and equality_test(e.type, a.type, _exact_strings, _delta)
                         for e, a in zip(fields(expected), fields(actual))))
         # Two instances: same class name, and field by field with the usual leniency
-        return (type(expected).__name__ == type(actual).__name__ and
+        return (expected.__class__.__name__ == actual.__class__.__name__ and
                 len(fields(expected)) == len(fields(actual)) and
                 all(e.name == a.name and equality_test(getattr(expected, e.name), getattr(actual, a.name),
                                                        _exact_strings, _delta)
